@@ -21,7 +21,7 @@ fn key(op: &str, a: &Args) -> (u64, u64) {
     (h1.finish(), h2.finish())
 }
 
-const VLIMIT_KB: u64 = 4_000_000;
+const VLIMIT_KB: u64 = 1_500_000;   // allocation cap of a worker child (address space)
 fn watchdog_ms() -> u64 { std::env::var("C08_WATCHDOG_MS").ok().and_then(|s| s.parse().ok()).unwrap_or(5000) }
 
 /// Stable class of a panic: source file (path below the repository) + message up to the first digit.
@@ -165,7 +165,9 @@ fn run_chunk(id: usize, jobs: &[(String, Args)], wd_ms: u64) -> Vec<Args> {
 }
 
 /// Parent: run all jobs in parallel worker children and memoise the results.
-pub fn run_batch(jobs: Vec<(String, Args)>) -> Vec<Args> {
+pub fn run_batch(jobs: Vec<(String, Args)>) -> Vec<Args> { let wd = watchdog_ms(); run_batch_wd(jobs, wd, wd * 6) }
+/// first pass with watchdog `first_ms`; a timeout is confirmed by a solo re-run with `confirm_ms` before it is reported
+pub fn run_batch_wd(jobs: Vec<(String, Args)>, first_ms: u64, confirm_ms: u64) -> Vec<Args> {
     let nw = std::env::var("C08_WORKERS").ok().and_then(|s| s.parse().ok()).unwrap_or(8usize).max(1);
     let n = jobs.len();
     let per = (n + nw - 1) / nw.max(1);
@@ -173,17 +175,20 @@ pub fn run_batch(jobs: Vec<(String, Args)>) -> Vec<Args> {
     if n > 0 {
         let chunks: Vec<&[(String, Args)]> = jobs.chunks(per.max(1)).collect();
         let results: Vec<Vec<Args>> = std::thread::scope(|s| {
-            let hs: Vec<_> = chunks.iter().enumerate().map(|(i, c)| s.spawn(move || run_chunk(i, c, watchdog_ms()))).collect();
+            let hs: Vec<_> = chunks.iter().enumerate().map(|(i, c)| s.spawn(move || run_chunk(i, c, first_ms))).collect();
             hs.into_iter().map(|h| h.join().expect("worker")).collect()
         });
         for r in results { out.extend(r) }
     }
-    // a timeout is confirmed by a solo re-run with a doubled watchdog before it is reported (machine load)
-    for i in 0..n {
-        if is_timeout(&out[i]) {
-            let again = run_chunk(1000 + i, &jobs[i..i + 1], watchdog_ms() * 2);
-            out[i] = again.into_iter().next().unwrap();
-        }
+    // a timeout is confirmed by a re-run in its own child with the long watchdog before it is reported
+    // (machine load must not turn a slow case into a violation)
+    let tmo: Vec<usize> = (0..n).filter(|i| is_timeout(&out[*i])).collect();
+    for group in tmo.chunks(nw) {
+        let again: Vec<Args> = std::thread::scope(|s| {
+            let hs: Vec<_> = group.iter().map(|&i| { let j = &jobs[i..i + 1]; s.spawn(move || run_chunk(1000 + i, j, confirm_ms).remove(0)) }).collect();
+            hs.into_iter().map(|h| h.join().expect("worker")).collect()
+        });
+        for (k, &i) in group.iter().enumerate() { out[i] = again[k].clone(); }
     }
     let mut c = cache().lock().unwrap();
     for (i, (op, a)) in jobs.iter().enumerate() { c.insert(key(op, a), out[i].clone()); }
